@@ -15,7 +15,11 @@ Inductive sop :=
 | SExists (i : N) (r : bool)                         (* IsExisted(hash tbl[i]) *)
 | SEvicted (i : N) (r : bool)                        (* evicted-cache probe *)
 | SLess (i j : N) (r : N)                            (* Transactions{tbl[i],tbl[j]}.Less(0,1): 0 false, 1 true, 2 panic *)
-| STick.                                             (* one growRing tick of the pending container *)
+| STick                                              (* one growRing tick of the pending container *)
+| SMarkCall (rc txs ev : list N) (panicked : bool)   (* MarkExecuted(receipts with hashes of tbl[rc], block txs tbl[txs], evicted tbl[ev]) *)
+| SMarkEvRange (base count : N)                      (* MarkExecuted(no receipts, evicted = hashes base .. base+count-1) *)
+| SEvictedRaw (h : N) (r : bool)                     (* evicted-cache probe of a raw hash *)
+| SClear (newlim : N).                               (* Clear(); the new pending container has limit newlim *)
 
 Definition T (h s n r : N) : tx := mkTx h s n r.
 
@@ -66,12 +70,27 @@ Definition chk_pack (f : flags) (cap : N) (s : pool) (st : list (N * N)) (sorted
      else txs_eqb (pack f (st_of st) cap s) packed)
   end.
 
-Definition chk_step (f : flags) (lim cap : N) (tbl : list tx) (s : pool) (o : sop) : bool * pool :=
+Fixpoint nrange (base : N) (n : nat) : list N :=
+  match n with O => [] | S k => base :: nrange (base + 1) k end.
+
+(* [det] = a Clear has happened: MarkExecuted's records go to the old store (Model.mark_detached) *)
+Definition do_mark (det : bool) (s : pool) (txs : list tx) (ev : list N) : pool :=
+  if det then mark_detached s txs ev else mark_executed s txs ev.
+
+Definition chk_step (f : flags) (det : bool) (lim cap : N) (tbl : list tx) (s : pool) (o : sop) : bool * pool :=
   match o with
   | SAdd i ok err =>
     let '(s', r) := add lim s (nth_tx tbl i) in
     (match r with AOk => ok && (err =? 0) | AErrExist => negb ok && (err =? 1) end, s')
-  | SMark txs ev => (true, mark_executed s (sel tbl txs) (hashes (sel tbl ev)))
+  | SMark txs ev => (true, do_mark det s (sel tbl txs) (hashes (sel tbl ev)))
+  | SMarkCall rc txs ev panicked =>
+    match resolve_from 0 (hashes (sel tbl rc)) (sel tbl txs) with
+    | Some l => (negb panicked, do_mark det s l (hashes (sel tbl ev)))
+    | None => (panicked, s)
+    end
+  | SMarkEvRange base count => (true, do_mark det s [] (nrange base (N.to_nat count)))
+  | SEvictedRaw h r => (Bool.eqb (memN h (evicted s)) r, s)
+  | SClear _ => (true, s)  (* handled by chk_steps *)
   | SUnmark txs ev => (true, unmark lim s (sel tbl txs) (hashes (sel tbl ev)))
   | SPack st sorted packed => (chk_pack f cap s st (sel tbl sorted) (sel tbl packed), s)
   | SLookup i w j =>
@@ -95,24 +114,28 @@ Definition invb (s : pool) : bool :=
 
 (* the evaluator runs the timed pool of Model.v: pool methods through [step]'s components + resync of
    the ring counters (= tstep (TOp _)), ticks through tstep TTick *)
-Fixpoint chk_steps (f : flags) (lim cap : N) (tbl : list tx) (ts : tpool)
+Fixpoint chk_steps (f : flags) (det : bool) (lim cap : N) (tbl : list tx) (ts : tpool)
          (steps : list (sop * option (list N))) : bool :=
   match steps with
   | [] => true
   | (o, recv) :: r =>
-    let '(ok, ts') :=
+    let '(ok, ts', det', lim') :=
       match o with
-      | STick => (true, tstep lim ts TTick)
-      | _ => let '(ok, s') := chk_step f lim cap tbl (tp ts) o in (ok, mkT s' (resync (rings ts) s'))
+      | STick => (true, tstep lim ts TTick, det, lim)
+      | SClear newlim =>
+        let s' := xp (xstep lim (mkX (tp ts) det []) (XClear [])) in
+        (true, mkT s' (resync (rings ts) s'), true, newlim)
+      | _ => let '(ok, s') := chk_step f det lim cap tbl (tp ts) o in
+             (ok, mkT s' (resync (rings ts) s'), det, lim)
       end in
     ok && invb (tp ts')
     && match recv with None => true | Some is => txs_eqb (received (tp ts')) (sel tbl is) end
-    && chk_steps f lim cap tbl ts' r
+    && chk_steps f det' lim' cap tbl ts' r
   end.
 
 Definition check (c : (bool * bool * bool * bool) * (N * N) * list tx * list (sop * option (list N))) : bool :=
   let '((f16, f18, f21, f23), (lim, cap), tbl, steps) := c in
-  chk_steps (mkFlags f16 f18 f21 f23) lim cap tbl (mkT empty []) steps.
+  chk_steps (mkFlags f16 f18 f21 f23) false lim cap tbl (mkT empty []) steps.
 
 (* ---------- gated schedules on the real pool vs the locked fine-grained semantics ---------- *)
 (* One case = one pool life driven through a deterministic schedule of sub-steps (goroutines parked at
